@@ -1,6 +1,19 @@
 (* Lemmas about model/Wheel.v (timer wheel). Part 1: well-formedness, slot arithmetic, the partition
-   invariant, the behaviour of Advance on each slot. The characterising lemmas clients should use are
-   collected at the end of proofs/Wheel_time.v. *)
+   invariant, the behaviour of Advance on each slot.
+
+   Characterising lemmas for clients of model/Wheel.v (conntrack C18, handshake retries C32):
+     this file      wf, wf_init, wf_step, wf_exec       reachable states are well formed (0 < min, 0 <= max)
+                    step_fields, exec_fields            tick / span / wheelLen never change
+                    nticks_range, nticks_ge, nticks_lt  the clamped timeout in ticks, rounded up
+                    find_wheel_ok                       slot in range; it is flushed in nticks + 1 ticks
+                    step_perm, exec_perm                multiset of items conserved (slot / expired / returned)
+                    advance_slot                        what Advance(now) does to one slot, any gap length
+     Wheel_time.v   slot_wait, add_fires                an item fires at the first Advance reaching
+                                                        lastTick(at Add) + (nticks + 1) * tick, given adv_ok
+                    clock_adv_ok, advance_clock         clock_ok (static, on the instants) implies adv_ok
+                    advance_flush_all, advance_last_near, drain, exp_flow
+                    exec_map, outs_map, label_*         the wheel is parametric in its items
+     Wheel_c33.v    the C33 statements from init (c33_partition, c33_fire_exact, c33_on_time, ...). *)
 From Coq Require Import List ZArith Lia Bool Permutation PreOmega.
 Import ListNotations.
 From NV Require Import model.Wheel lib.Wheel_lib.
